@@ -4,6 +4,7 @@ use vstd::prelude::*;
 //@include prelude/tokens.rs
 //@include prelude/deps.rs
 //@include prelude/containers.rs
+//@include prelude/option.rs
 verus! {
 //@include units/types.inc
 //@include units/spec_common.inc
